@@ -82,6 +82,37 @@ def run_case(rng, tier, case):
             mon_mapping_asset(case, ev)
             if len(ev.snap.c):
                 n_assets_with_vars += 1
+    # periodic assets: "its cost is that the asset computed for it" - a joined variable stands for the steps its mapping rows name, so it
+    # carries the sum of the costs the same asset WITHOUT the option computes for these steps (one-variable-per-step forms)
+    if not split and r.ok:
+        from ..spec import Built, build_asset, build_timegrid
+        from ..canon import Snap
+        for ev in [e for e in rec.of('asset_setup') if e.snap is not None and not e.args.get('costs_only') and e.parent is not None]:
+            a = [x for x in spec['assets'] if x['name'] == ev.args['name']]
+            if not a or not a[0].get('periodicity') or a[0].get('freq') or len(ev.snap.c) == 0:
+                continue
+            a = a[0]
+            mp = ev.snap.mapping
+            if set(mp['var_name'].unique()) != {'disp'}:
+                continue
+            try:
+                with attach.paused(), env.quiet():
+                    a0 = {k: v for k, v in a.items() if k not in ('periodicity', 'periodicity_duration')}
+                    o0 = build_asset(a0, Built(), spec['grid'].get('tz'))
+                    s0 = Snap(o0.setup_optim_problem({k: np.asarray(v, float) for k, v in spec['prices'].items()}, build_timegrid(spec['grid'])))
+                m0 = s0.mapping
+                if set(m0['var_name'].unique()) != {'disp'}:
+                    continue
+                c_step = {int(t): float(s0.c[int(i)]) for i, t in zip(m0.index, m0['time_step'])}
+                ok = True; bad = None
+                for i in sorted(set(int(q) for q in mp.index)):
+                    steps = sorted(set(int(t) for t in mp.loc[[i], 'time_step'].values))
+                    want = sum(c_step[t] for t in steps)
+                    if abs(float(ev.snap.c[i]) - want) > 1e-9 * (1 + abs(want)):
+                        ok = False; bad = {'var': i, 'steps': steps[:8], 'cost': float(ev.snap.c[i]), 'sum_of_step_costs': want}; break
+                case.check('asset.periodic_cost_is_sum_of_joined_steps', ok, asset=a['name'], cls=a['type'], periodicity=a['periodicity'], bad=bad)
+            except Exception as e:
+                case.event('periodic_probe_failed:' + type(e).__name__)
     nodal = 0
     for pev in rec.of('portfolio_setup'):
         if pev.snap is not None:
